@@ -5,17 +5,27 @@
 // Two kinds of sessions, both over a REAL FSM / state store (consul.VerifCADelegate12 applies
 // every CA request through fsm.Apply with msgpack encoding, as Server.raftApplyMsgpack does):
 //
-//   manager sessions  a real CAManager (primary datacenter, real Consul CA provider) is
-//                     initialized, then CSRs built with x509.CreateCertificateRequest and parsed
-//                     with connect.ParseCSR (the path of the ConnectCA.Sign endpoint) are given to
-//                     the real CAManager.AuthorizeAndSignCertificate together with real
-//                     acl.Authorizers compiled from generated policies; interleaved with root
-//                     rotations (UpdateConfiguration: new key, cross-signing, rotating back to an
-//                     earlier root), config-only updates, failed conditional updates, direct
-//                     serial increments and cluster-id changes.
-//   bare sessions     CA command histories (set-config / set-roots / set-roots-config / provider
-//                     state / serial) with matching and stale indexes, colliding root ids, zero or
-//                     several active roots, straight into the FSM.
+//	manager sessions  a real CAManager (primary datacenter, real Consul CA provider) is
+//	                  initialized, then CSRs built with x509.CreateCertificateRequest and parsed
+//	                  with connect.ParseCSR (the path of the ConnectCA.Sign endpoint) are given to
+//	                  the real CAManager.AuthorizeAndSignCertificate together with real
+//	                  acl.Authorizers compiled from generated policies; interleaved with root
+//	                  rotations (UpdateConfiguration: new key, cross-signing, rotating back to an
+//	                  earlier root), config-only updates, failed conditional updates, direct
+//	                  serial increments and cluster-id changes.
+//	secondary sessions (ext.go) a primary and a secondary datacenter side by side (the model runs
+//	                  two systems, `swap` switches): the secondary's real CAManager gets its
+//	                  intermediate from the primary's real provider (secondaryInitialize,
+//	                  secondaryUpdateRoots after primary rotations, forced renewals, config updates,
+//	                  leader changes, refusing primary), CSRs are signed in both datacenters.
+//	render session (ext.go)   id.URI() / ParseCertURI / CanSign on generated identities.
+//	manager sessions also: rate-limit / concurrency-limit configs, clock past root expiry, leader
+//	                  change (new CAManager over the same store), FSM snapshot+restore, change of
+//	                  provider type; every conditional roots write the leader prepares is compared
+//	                  with the model's rotationRoots (`rotreq`).
+//	bare sessions     CA command histories (set-config / set-roots / set-roots-config / provider
+//	                  state / serial) with matching and stale indexes, colliding root ids, zero or
+//	                  several active roots, straight into the FSM.
 //
 // Lines (see lean/CV/Engine/C12.lean):  new / ca / mgr / sign, one canonical answer each, which the
 // compiled Lean model (CV.Ca) must reproduce.
@@ -122,6 +132,22 @@ type sess struct {
 	conf    map[string]interface{}
 	rootPEM map[int]string // CA key index -> root cert PEM generated for it
 
+	dc      string    // the datacenter of this session's servers
+	primary *sess     // secondary-datacenter session: the session of the primary datacenter
+	slot    int       // which of the engine's two systems the lines of this session go to
+	shared  *[]string // op log shared by a primary and its secondary session (replay needs both)
+	// CSR rate limiter bookkeeping (what the model is told): key of the CSRMaxPerSecond value
+	// the stored config carries, as last reported with a `rate` line
+	rateTold   string
+	prov       string // provider name of the installed configuration ("" = consul)
+	nextProv   string // provider name the next update asks for
+	refuse     bool   // the primary refuses to sign the secondary's intermediate CSR
+	altN       int
+	clockAhead bool
+	// secondary: the last exchange with the primary gave this datacenter a signing certificate
+	// under the primary's active root
+	synced bool
+
 	// deep fingerprint of the root and config rows right after the last applied CA command
 	lastDeep string
 	// fault injection into the manager's raft-apply entry point
@@ -133,19 +159,46 @@ type sess struct {
 }
 
 func newSess(run *hx.Run, bare bool, start uint64) *sess {
-	s := &sess{run: run, bare: bare, labels: map[string]string{}, nlab: map[string]int{}, serials: map[uint64]bool{}, rootPEM: map[int]string{}}
-	s.d = consul.VerifNewCADelegate12(localDC, start)
+	return newSessIn(run, bare, start, localDC, 0)
+}
+
+// curSlot: which of the engine's two systems the next line goes to (`swap` exchanges them)
+var curSlot = 0
+
+func newSessIn(run *hx.Run, bare bool, start uint64, dc string, slot int) *sess {
+	s := &sess{run: run, bare: bare, labels: map[string]string{}, nlab: map[string]int{}, serials: map[uint64]bool{}, rootPEM: map[int]string{},
+		dc: dc, slot: slot, rateTold: "none"}
+	s.d = consul.VerifNewCADelegate12(dc, start)
 	s.d.OnCA = s.onCA
 	s.d.PreCA = s.preCA
-	s.line("new "+hx.EncS(localDC), "ok")
+	s.line("new "+hx.EncS(dc), "ok")
 	s.prev = s.snap()
 	s.lastDeep = s.deep()
 	return s
 }
 
 func (s *sess) line(op, out string) {
-	s.ops = append(s.ops, op)
+	if s.slot != curSlot {
+		curSlot = s.slot
+		s.logOp("swap")
+		s.run.Line("swap", "ok")
+	}
+	s.logOp(op)
 	s.run.Line(op, out)
+}
+
+func (s *sess) logOp(op string) {
+	s.ops = append(s.ops, op)
+	if s.shared != nil {
+		*s.shared = append(*s.shared, op)
+	}
+}
+
+func (s *sess) replay() []string {
+	if s.shared != nil {
+		return append([]string(nil), *s.shared...)
+	}
+	return append([]string(nil), s.ops...)
 }
 
 var violCount = map[string]int{}
@@ -158,7 +211,7 @@ func (s *sess) violate(sig, desc string) {
 		s.run.Tag("violation-repeat:" + sig)
 		return
 	}
-	s.run.Violate(sig, desc, append([]string(nil), s.ops...))
+	s.run.Violate(sig, desc, s.replay())
 }
 
 // label maps run-specific values (certificate fingerprints, provider ids, config digests) to
@@ -296,10 +349,10 @@ func (s *sess) deep() string {
 
 // checkStore is run before every sign, after every manager operation (successful or failed)
 // and inside the delegate's apply hook (request prepared, nothing committed yet):
-//   * the root and config rows are exactly what the last applied command left (no write through
+//   - the root and config rows are exactly what the last applied command left (no write through
 //     pointers returned by read-only queries, no change outside a Raft apply),
-//   * the root table is empty or has exactly one active root,
-//   * (settled only) the root the leader signs with is the one the store marks active.
+//   - the root table is empty or has exactly one active root,
+//   - (settled only) the root the leader signs with is the one the store marks active.
 func (s *sess) checkStore(when string, settled bool) {
 	cur := s.snap()
 	nact, pact := 0, 0
@@ -344,6 +397,9 @@ func (s *sess) preCA(req *structs.CARequest) (interface{}, error, bool) {
 	}
 	name := opName(req.Op)
 	s.checkStore("request "+name+" prepared, not applied yet", false)
+	if name == "setboth" || name == "setroots" {
+		s.rotreq(req)
+	}
 	if !s.faultArmed {
 		return nil, nil, false
 	}
@@ -603,7 +659,8 @@ func (s *sess) mgrLine() {
 	if p := consul.VerifProviderID12(s.m); p != "" {
 		pv = hx.EncS(s.label("p", p))
 	}
-	s.line("mgr "+pv, "active="+hx.EncList(l))
+	k, c, m := s.provFlags()
+	s.line("mgr "+pv+" "+hx.EncBool(k)+" "+hx.EncBool(c)+" "+hx.EncBool(m), "active="+hx.EncList(l))
 }
 
 // ---------------------------------------------------------------- generators: URIs
@@ -848,6 +905,14 @@ func classify(err error) string {
 		return "trust-domain"
 	case err == ca.ErrNotInitialized:
 		return "provider-uninit"
+	case err == consul.ErrRateLimited:
+		return "rate-limited"
+	case strings.HasPrefix(m, "root expired:"):
+		return "root-expired"
+	case strings.HasPrefix(m, "error parsing CA cert:"):
+		return "no-signing-cert"
+	case strings.HasPrefix(m, "error generating certificate: x509: provided PrivateKey doesn't match parent's PublicKey"):
+		return "key-mismatch"
 	}
 	return "other:" + hx.EncS(m)
 }
@@ -988,6 +1053,9 @@ type csrSpec struct {
 	ips    []net.IP
 	caExt  bool
 	cn     string
+	// built by connect.CreateCSR (the function agents use) from this identity instead of the
+	// hand-made template
+	viaCreateCSR connect.CertURI
 }
 
 func ipStrings(ips []net.IP) []string {
@@ -1021,12 +1089,24 @@ func (s *sess) doSign(r *hx.RNG, spec csrSpec, ag authzGen, tags []string) bool 
 		}
 		tmpl.ExtraExtensions = []pkix.Extension{ext}
 	}
-	der, err := x509.CreateCertificateRequest(rand.Reader, tmpl, hx.Pick(r, csrKeys))
-	if err != nil {
-		s.run.Tag("csr:rejected-by-x509.CreateCertificateRequest")
-		return false
+	var csrPEM string
+	if spec.viaCreateCSR != nil {
+		p, err := connect.CreateCSR(spec.viaCreateCSR, hx.Pick(r, csrKeys), spec.dns, spec.ips)
+		if err != nil {
+			s.run.Tag("csr:rejected-by-connect.CreateCSR")
+			return false
+		}
+		csrPEM = p
+		s.run.Tag("csr:built-by-connect.CreateCSR")
+	} else {
+		der, err := x509.CreateCertificateRequest(rand.Reader, tmpl, hx.Pick(r, csrKeys))
+		if err != nil {
+			s.run.Tag("csr:rejected-by-x509.CreateCertificateRequest")
+			return false
+		}
+		csrPEM = string(pem.EncodeToMemory(&pem.Block{Type: "CERTIFICATE REQUEST", Bytes: der}))
 	}
-	csr, err := connect.ParseCSR(string(pem.EncodeToMemory(&pem.Block{Type: "CERTIFICATE REQUEST", Bytes: der})))
+	csr, err := connect.ParseCSR(csrPEM)
 	if err != nil {
 		s.run.Tag("csr:rejected-by-connect.ParseCSR")
 		return false
@@ -1101,6 +1181,7 @@ func (s *sess) doSign(r *hx.RNG, spec csrSpec, ag authzGen, tags []string) bool 
 		}
 		deferred = nil
 	}
+	s.tellRate()
 	td := s.trustDomain()
 	s.inSign, s.signOps = true, nil
 	var issued *structs.IssuedCert
@@ -1151,9 +1232,14 @@ func (s *sess) doSign(r *hx.RNG, spec csrSpec, ag authzGen, tags []string) bool 
 	// which stored root signed it
 	_, roots, _ := s.d.State().CARoots(nil)
 	// (two roots generated for the same private key both verify it: prefer the active one)
+	// the chain is judged with what the reply ships (leaf + appended intermediates) only
 	signer := "none"
+	shipped := x509.NewCertPool()
+	shipped.AppendCertsFromPEM([]byte(issued.CertPEM))
 	for _, rt := range roots {
-		if rc, err := connect.ParseCert(rt.RootCert); err == nil && leaf.CheckSignatureFrom(rc) == nil {
+		pool := x509.NewCertPool()
+		pool.AppendCertsFromPEM([]byte(rt.RootCert))
+		if _, err := leaf.Verify(x509.VerifyOptions{Roots: pool, Intermediates: shipped, KeyUsages: []x509.ExtKeyUsage{x509.ExtKeyUsageAny}}); err == nil {
 			if signer == "none" || rt.Active {
 				signer = s.label("r", rt.ID)
 			}
@@ -1196,8 +1282,16 @@ func (s *sess) doSign(r *hx.RNG, spec csrSpec, ag authzGen, tags []string) bool 
 		}
 		inter.AppendCertsFromPEM([]byte(issued.CertPEM))
 		if _, err := leaf.Verify(x509.VerifyOptions{Roots: pool, Intermediates: inter, KeyUsages: []x509.ExtKeyUsage{x509.ExtKeyUsageAny}, CurrentTime: time.Now()}); err != nil {
-			s.violate("ca:leaf-does-not-chain-to-active-root", err.Error())
+			sig := "ca:leaf-does-not-chain-to-active-root"
+			if s.primary != nil && !s.synced {
+				sig = "ca:secondary-activates-primary-root-without-a-signing-certificate-under-it"
+			}
+			s.violate(sig, err.Error())
+		} else if _, err := leaf.Verify(x509.VerifyOptions{Roots: pool, Intermediates: shipped, KeyUsages: []x509.ExtKeyUsage{x509.ExtKeyUsageAny}}); err != nil {
+			// a peer only has the active root and what the reply carries
+			s.violate("ca:shipped-chain-does-not-reach-active-root", err.Error())
 		}
+		s.checkLeafIssuer(leaf, active)
 	}
 	if len(leaf.URIs) != 1 {
 		s.violate(fmt.Sprintf("ca:certificate-carries-%d-uris", len(leaf.URIs)), strings.Join(curis, " "))
@@ -1293,8 +1387,8 @@ func (s *sess) doSign(r *hx.RNG, spec csrSpec, ag authzGen, tags []string) bool 
 	if !allowed {
 		s.violate("ca:"+kind+"-identity-signed-without-write-permission", fmt.Sprintf("certificate %s (request %s) issued under authorizer [%s]", leaf.URIs[0], reqURIs[0], ag.desc))
 	}
-	if dc != localDC {
-		s.violate("ca:"+kind+"-identity-foreign-datacenter-signed", fmt.Sprintf("%s issued by a server of datacenter %s", leaf.URIs[0], localDC))
+	if dc != s.dc {
+		s.violate("ca:"+kind+"-identity-foreign-datacenter-signed", fmt.Sprintf("%s issued by a server of datacenter %s", leaf.URIs[0], s.dc))
 	}
 	if strings.ToLower(host) != td {
 		s.violate("ca:"+kind+"-identity-foreign-trust-domain-signed", fmt.Sprintf("%s issued by the CA of trust domain %s (request URI %s)", leaf.URIs[0], td, reqURIs[0]))
@@ -1326,6 +1420,9 @@ func (s *sess) genSign(r *hx.RNG) {
 		}
 		for i := 0; i < n; i++ {
 			u, t := genURI(r, td)
+			if s.dc != localDC {
+				u = swapDC(u)
+			}
 			spec.uris = append(spec.uris, u)
 			tags = append(tags, t...)
 		}
@@ -1361,6 +1458,17 @@ func (s *sess) genSign(r *hx.RNG) {
 				}
 			}
 		}
+		if n == 1 && len(spec.emails) == 0 && !spec.caExt && r.Chance(12) {
+			// the CSR an agent builds with connect.CreateCSR for the identity the URI denotes
+			if u, err := url.Parse(spec.uris[0]); err == nil {
+				if id, err := connect.ParseCertURI(u); err == nil {
+					if _, signing := id.(*connect.SpiffeIDSigning); !signing {
+						spec.viaCreateCSR = id
+						spec.uris = []string{id.URI().String()}
+					}
+				}
+			}
+		}
 		if s.doSign(r, spec, genAuthz(r, hints), tags) {
 			return
 		}
@@ -1387,7 +1495,15 @@ func (s *sess) rememberRoot() {
 }
 
 func (s *sess) update(conf map[string]interface{}, modIdx uint64, force bool, tag string) error {
-	err := s.m.UpdateConfiguration(&structs.CARequest{Config: &structs.CAConfiguration{Provider: "consul", Config: copyConf(conf),
+	prov := s.prov
+	if s.nextProv != "" {
+		prov, s.nextProv = s.nextProv, ""
+	}
+	if prov == "" {
+		prov = "consul"
+	}
+	s.freshShim()
+	err := s.m.UpdateConfiguration(&structs.CARequest{Config: &structs.CAConfiguration{Provider: prov, Config: copyConf(conf),
 		ForceWithoutCrossSigning: force, RaftIndex: structs.RaftIndex{ModifyIndex: modIdx}}})
 	faulted := s.faultArmed || s.caCount > 0
 	s.faultArmed, s.caCount = false, 0
@@ -1399,6 +1515,9 @@ func (s *sess) update(conf map[string]interface{}, modIdx uint64, force bool, ta
 		res += ":fault-injected"
 	}
 	s.run.Tag("mgr:" + tag + res)
+	if err == nil {
+		s.prov = prov
+	}
 	s.mgrLine()
 	s.checkStore("after "+tag+res, true)
 	return err
@@ -1426,7 +1545,7 @@ func managerSession(run *hx.Run, r *hx.RNG, nops int) {
 	s.checkStore("after Initialize", true)
 	s.rememberRoot()
 	for i := 0; i < nops; i++ {
-		switch k := r.Intn(1000); {
+		switch k := r.Intn(1100); {
 		case k < 880:
 			s.checkStore("before sign", true)
 			s.genSign(r)
@@ -1516,12 +1635,81 @@ func managerSession(run *hx.Run, r *hx.RNG, nops int) {
 			}
 			s.d.ApplyCARaw(&structs.CARequest{Op: structs.CAOpSetConfig, Config: &c})
 			run.Tag("mgr:cluster-id-set")
-		default:
+		case k < 990:
 			s.d.Index += uint64(r.Intn(50))
 			run.Tag("mgr:raft-index-gap")
+		default:
+			if !s.extraOp(r) {
+				return
+			}
 		}
 		s.checkStore("after operation", true)
 	}
+}
+
+// extraOp: rate limiter / concurrency limiter configs, the leader's clock passing the root's
+// expiry, a leader change, an FSM snapshot + restore, a change of provider.
+func (s *sess) extraOp(r *hx.RNG) bool {
+	switch k := r.Intn(100); {
+	case k < 22: // a rate limit so small that the single burst token never comes back
+		conf := copyConf(s.conf)
+		delete(conf, "CSRMaxConcurrent")
+		conf["CSRMaxPerSecond"] = tinyRates[hx.Pick(r, []string{"1", "1", "2"})]
+		if err := s.update(conf, 0, false, "rate-limit-on"); err == nil {
+			s.conf = conf
+		}
+	case k < 34:
+		conf := copyConf(s.conf)
+		conf["CSRMaxPerSecond"] = 0
+		conf["CSRMaxConcurrent"] = 1 + r.Intn(2)
+		if err := s.update(conf, 0, false, "concurrency-limit-on"); err == nil {
+			s.conf = conf
+		}
+	case k < 44:
+		conf := copyConf(s.conf)
+		conf["CSRMaxPerSecond"] = 0
+		delete(conf, "CSRMaxConcurrent")
+		if err := s.update(conf, 0, false, "limits-off"); err == nil {
+			s.conf = conf
+		}
+	case k < 56:
+		s.setClock(true)
+		s.clockAhead = true
+	case k < 68:
+		if !s.failover() {
+			return false
+		}
+		s.clockAhead = false
+	case k < 82:
+		s.snapshotRestore()
+	default: // the provider changes (same or new key): consul <-> another provider type
+		conf := copyConf(s.conf)
+		tag := "provider-change-same-key"
+		nk := s.curKey
+		if r.Chance(60) {
+			nk = (s.curKey + 1 + r.Intn(len(caKeys)-1)) % len(caKeys)
+			conf["PrivateKey"] = caKeys[nk]
+			delete(conf, "RootCert")
+			tag = "provider-change-new-key"
+		}
+		if s.prov == altProvider {
+			s.nextProv = "consul"
+		} else {
+			s.nextProv = altProvider
+		}
+		if r.Chance(30) {
+			s.arm(r)
+		}
+		if err := s.update(conf, 0, r.Chance(25), tag); err == nil {
+			s.conf, s.curKey = conf, nk
+			s.rememberRoot()
+		}
+	}
+	if s.clockAhead && r.Chance(50) {
+		s.setClock(false)
+		s.clockAhead = false
+	}
+	return true
 }
 
 // exhaustive segment alphabets per position, every kind, with the trust domain and a foreign host
@@ -1536,7 +1724,7 @@ func exhaustiveSession(run *hx.Run, r *hx.RNG, wide bool) {
 	s.mgrLine()
 	alpha := []string{"a", "A", "a%2Fb", "%61", "*", "", "dc1", "dc%31", "%2561", "a%252Fb", "dc%2531", "%252561"}
 	td := s.trustDomain()
-	hosts := []string{td, "foreign.consul"}
+	hosts := []string{td, "foreign.consul", "evil-" + td, td + ".evil.com"}
 	aps := []string{""}
 	if wide {
 		hosts = append(hosts, strings.ToUpper(td))
@@ -1666,6 +1854,11 @@ func main() {
 	for i := 0; i < nMgr; i++ {
 		managerSession(run, run.RNG.Fork(uint64(i)), nOps)
 	}
+	nSec := run.Scale(14, 90)
+	for i := 0; i < nSec; i++ {
+		secondarySession(run, run.RNG.Fork(uint64(700000+i)), nOps)
+	}
+	renderSession(run, run.RNG.Fork(800001), run.Scale(1500, 12000))
 	exhaustiveSession(run, run.RNG.Fork(900001), run.Thorough())
 	nBare := run.Scale(200, 1500)
 	for i := 0; i < nBare; i++ {
